@@ -77,6 +77,9 @@ pub enum Act {
     /// withdrawal attempts that do not go through the LP token's Send hook: the direct
     /// WithdrawLiquidity{} message with an unrelated coin attached, or a forged Receive
     BadWithdraw { user: String, kind: String },
+    /// a deposit whose message mislabels the kind of an asset (a native denom presented as a cw20 contract address,
+    /// with no funds attached for it)
+    BadProvide { user: String, kind: String },
     Swap { user: String, dir: u8, amount: u128, loose: bool },
     Collect { user: String },
     /// through fee_collector::CollectFees{Contracts}
@@ -322,6 +325,9 @@ impl Scenario for PairScn {
             for kind in ["direct_coin", "forged_receive"] {
                 v.push(Act::BadWithdraw { user: MALLORY.to_string(), kind: kind.to_string() });
             }
+            if h.pair.assets.iter().any(|a| matches!(a, AssetInfo::NativeToken { .. })) {
+                v.push(Act::BadProvide { user: MALLORY.to_string(), kind: "native_labelled_as_token".to_string() });
+            }
         }
         v.push(Act::Collect { user: MALLORY.to_string() });
         for i in 0..self.fee_alphabet.len() {
@@ -414,6 +420,42 @@ impl Scenario for PairScn {
                     Err(e) => {
                         cx.count("withdraw:rejected");
                         cx.note(|| format!("rejected: {}", e.msg()));
+                    }
+                }
+            }
+            Act::BadProvide { user, kind: _ } => {
+                let (res, supply) = pre.unwrap();
+                let d = [(res[0] / 10).max(1), (res[1] / 10).max(1)];
+                let mut assets = vec![];
+                for i in 0..2 {
+                    let info = match &p.assets[i] {
+                        AssetInfo::NativeToken { denom } => AssetInfo::Token { contract_addr: denom.clone() },
+                        other => other.clone(),
+                    };
+                    if let AssetInfo::Token { contract_addr } = &p.assets[i] {
+                        w.cw20_allow(contract_addr, user, &p.addr, d[i]);
+                    }
+                    assets.push(asset(&info, d[i]));
+                }
+                let ub = [info_balance(w, &p.assets[0], user), info_balance(w, &p.assets[1], user)];
+                let lpb = w.cw20_balance(&p.lp, user);
+                let r = w.exec(user, &p.addr, &white_whale_std::pool_network::pair::ExecuteMsg::ProvideLiquidity { assets: [assets[0].clone(), assets[1].clone()], slippage_tolerance: None, receiver: None }, &[]);
+                let ua = [info_balance(w, &p.assets[0], user), info_balance(w, &p.assets[1], user)];
+                let minted = w.cw20_balance(&p.lp, user) - lpb;
+                match &r {
+                    Ok(_) => {
+                        cx.count("bad_provide:accepted");
+                        cx.check("provide.user_paid_exactly", ub[0] - ua[0] == d[0] && ub[1] - ua[1] == d[1], || {
+                            format!("deposit {:?} with the native asset labelled as a cw20 token and no funds attached was accepted: user balance moved {:?}->{:?}, minted {} of supply {}", d, ub, ua, minted, supply)
+                        });
+                    }
+                    Err(_) => {
+                        cx.count("bad_provide:rejected");
+                        for a in p.assets.iter() {
+                            if let AssetInfo::Token { contract_addr } = a {
+                                let _ = w.exec(user, contract_addr, &cw20::Cw20ExecuteMsg::DecreaseAllowance { spender: p.addr.clone(), amount: cosmwasm_std::Uint128::new(u128::MAX), expires: None }, &[]);
+                            }
+                        }
                     }
                 }
             }
